@@ -103,19 +103,28 @@ def file_task(task):
             want_code = 0 if all(v == "OK" for _, v, _ in want) else 1
             if o["code"] != want_code:
                 probs.append((" ".join(vec), f"exit={o['code']}", f"expected {want_code}"))
-        # inline content
+        # inline content (run from a directory that holds another source: nothing but the given content may be analysed)
         flag = "--cfile" if fname.endswith(".c") else "--hfile"
+        decoy = os.path.join(d, "decoy")
+        os.makedirs(decoy)
+        with open(os.path.join(decoy, "decoy.c"), "w") as f:
+            f.write("int\tdecoy(void)\n{\n\treturn (1) ;\n}\n")
         variants = [[flag, text, "--filename", fname], ["--no-colors", "-f", "json", flag, text, "--filename", fname]]
         if fname in ("file.c", "file.h"):
             variants.append([flag, text])
         if not text.startswith("-"):
             for v in variants:
                 n += 1
-                o = impl.run_cli(v)
+                o = impl.run_cli(v, cwd=decoy)
                 if o["exc"] is not None:
                     probs.append(("inline", f"exception:{o['exc'][0]}", str(o["exc"])))
                     continue
-                res = parse(o["stdout"], "json" in v)
+                try:
+                    res = parse(o["stdout"], "json" in v)
+                except Exception as e:  # noqa: BLE001
+                    probs.append(("inline " + " ".join(x for x in v if x != text), "inline-differs",
+                                  f"unparsable output ({type(e).__name__}): {o['stdout'][-200:]!r}"))
+                    continue
                 if res != base[0]:
                     probs.append(("inline " + " ".join(x for x in v if x != text), "inline-differs", f"{res} instead of {base[0]}"))
         # the same comparison for the content without its final newline (content must be analysed as given)
@@ -124,7 +133,7 @@ def file_task(task):
             with open(path, "w") as f:
                 f.write(t2)
             o1 = impl.run_cli(["--no-colors", path])
-            o2 = impl.run_cli(["--no-colors", flag, t2, "--filename", fname])
+            o2 = impl.run_cli(["--no-colors", flag, t2, "--filename", fname], cwd=decoy)
             n += 2
             if o1["exc"] is None and o2["exc"] is None:
                 r1, r2 = parse(o1["stdout"], False), parse(o2["stdout"], False)
@@ -143,7 +152,7 @@ def define_dense():
             "int\tmain(void)\n{\n\treturn (GOOD); \n}\n")
     h2 = header42.header_text("defs.h") + "\n"
     body2 = "#ifndef DEFS_H\n# define DEFS_H\n\n# define lower 1\n# define TWO 1 + 1\n# define OK_VAL 3\n\n#endif\n"
-    return [("defs.c", h + body), ("defs.h", h2 + body2), ("file.c", header42.header_text("file.c") + "\n" + body),
+    return [("empty.c", ""), ("empty.h", ""), ("nl.c", "\n"), ("defs.c", h + body), ("defs.h", h2 + body2), ("file.c", header42.header_text("file.c") + "\n" + body),
             ("file.h", header42.header_text("file.h") + "\n" + body2.replace("DEFS_H", "FILE_H"))]
 
 
@@ -158,6 +167,12 @@ def files_for(tier, seed):
         if r.exc is None:
             out.append((v["fname"], v["text"]))
     out += define_dense()
+    # sample inputs of norminette's own tests that are analysed to a verdict (a rotating quarter in the quick tier)
+    from .. import corpus
+    for fn, tx in (corpus.samples() if tier != "quick" else corpus.sample_slice(seed, 4)):
+        r = impl.run_text(fn, tx)
+        if r.exc is None:
+            out.append((fn, tx))
     return out
 
 
@@ -184,7 +199,7 @@ def run(tier, seed):
     if verdicts.get("Error", 0) == 0 or verdicts.get("OK", 0) == 0:
         raise HarnessError(f"file set is vacuous: {verdicts}")
     st.sample({"option_vector": ["--no-colors", "-f", "json", "-o", "-dd", "-R", "CheckDefine"], "file": files[0][0]})
-    st.sample({"file": "defs.c", "text_tail": files[-4][1].split("\n")[12:]})
+    st.sample({"file": "defs.c", "text_tail": define_dense()[3][1].split("\n")[12:]})
     return CheckResult(
         st, failures,
         rule="all 144 option vectors (colours x format{default,humanized,json} x -o x debug x -R) x every file of the "
